@@ -107,8 +107,8 @@ func bitsPattern(L, base uint64, kind string) *bitsHist {
 	for i := 0; i < 5; i++ { // dense run
 		adv(1)
 	}
-	h.ku(cur)     // duplicate of the cursor
-	h.ku(cur - 2) // duplicate inside the window (if L > 2), else out of window
+	h.ku(cur)                  // duplicate of the cursor
+	h.ku(cur - 2)              // duplicate inside the window (if L > 2), else out of window
 	adv(L - 1 + boolU(L == 1)) // jump of L-1 (of 1 when L = 1)
 	h.ku(cur - 1)              // backfill just below the cursor
 	h.ku(cur - 1)              // and its duplicate
